@@ -73,6 +73,15 @@ CLAIMS = {
             "its base size. The protocol itself is model-checked for all interleavings of mk/copy/assign(self)/apply/destroy over 3 handles.",
             "Trusted: TLC, the two read-only hook accessors. Double release that happens not to change a size/value is only caught by the model, not observed on the code "
             "(no sanitizer in this family).", "DESIGN.md §4 C18"),
+    "C07": (MC, "TLC-enumerated and random pairs rendered as Timbuk text, loaded into both BDD encodings and run through every selection; verdicts judged by TLC against TA!Incl (same oracle as the explicit encoding)",
+            "For each pair the 6 implemented selections (BU upward, BU downward+simulation, TD downward with/without cache and with/without simulation) and 4 "
+            "unimplemented probes are executed; TLC rejects any verdict that differs from the bottom-up macro-state fixpoint and any exception other than "
+            "NotImplementedException from an implemented selection.",
+            "Trusted: TLC, Layer-0 oracle, the Timbuk loader (C13). 16-bit symbol encoding exercised with <= 7 symbols only.", "DESIGN.md §4 C07"),
+    "C08": (MC, "random histories of BDD automata sharing one transition table replayed on both encodings; every live automaton dumped after every step; sequential TLA+ trace validation (TraceBdd) of operation contracts and of language preservation of all other handles",
+            "load / copy / assign / destroy / Union / UnionDisjointStates / Intersection / both trimmings / GetTopDownAut as spec actions; a recorded history is accepted "
+            "only if each result satisfies its language contract on the current operand values and every other live automaton still denotes the language it denoted before.",
+            "Trusted: TLC, Layer-0 oracle, Timbuk parser for read-back. For RemoveUnreachableStates only language preservation is demanded.", "DESIGN.md §4 C08"),
 }
 
 NOT_APPLICABLE = {
